@@ -64,13 +64,92 @@ theorem add_guarded_transfer (b : Bal) (src tgt : Addr) (v : Int) :
     · simp [transferBalance, hn]
     · simp [transferBalance, hn, h]
 
-/-- The amount strings of the quantifier: zero, empty, `Inf`, more than 18 decimals, negative, huge. -/
+/-- `add_guarded` for the real parser: whatever string is written as the amount of an asset transfer — `strToBigInt`
+    is `utility.StrToBigInt` with the exact `big.ParseFloat`/`Float.Mul`/`Float.Int` semantics — a parse error or a
+    negative value is rejected before any credit. -/
+theorem add_guarded_transfer_string (b : Bal) (src tgt : Addr) (s : String)
+    (h : strToBigInt s = .err ∨ ∃ v, strToBigInt s = .val v ∧ v < 0) :
+    transferBalance b src tgt (strToBigInt s) = none := by
+  rcases h with h | ⟨v, h, hv⟩
+  · rw [h]; rfl
+  · rw [h]; exact (add_guarded_transfer b src tgt v).1 hv
+
+example : strToBigInt "-0.5" = .val (-500000000000000000) ∧ strToBigInt "1e" = .err := by decide +kernel
+
+/-- `add_guarded` for the real parser, contract side: a contract transaction (create, call or jsonrpc; any program,
+    any gas oracle) whose `transferValue` string parses to a negative number never succeeds. Together with
+    `failed_tx_only_gas` it then moves nothing but fees. -/
+theorem add_guarded_contract_string (fuel : Nat) (w : World) (t : ContractTx) (v : Int)
+    (h : strToBigInt t.value = .val v) (hv : v < 0) :
+    (execTx fuel w (.contract t)).2 ≠ .success := by
+  simp only [execTx]
+  cases hcb : contractBefore w.st.bal t with
+  | inl p =>
+    obtain ⟨status, b⟩ := p
+    simp only
+    intro hs
+    subst hs
+    -- BeforeExecute never answers success by itself
+    unfold contractBefore at hcb
+    split at hcb
+    · cases hcb
+    · cases hf : processFee w.st.bal t.src with
+      | none => rw [hf] at hcb; simp only at hcb; split at hcb <;> cases hcb
+      | some b1 =>
+        rw [hf] at hcb
+        simp only at hcb
+        split at hcb
+        · cases hcb
+        · cases hg : parseGasLimit t.gasLimit with
+          | none => rw [hg] at hcb; cases hcb
+          | some raw =>
+            rw [hg, h] at hcb
+            simp only at hcb
+            split at hcb <;> cases hcb
+  | inr p =>
+    obtain ⟨b1, raw, v'⟩ := p
+    have hv' : v' = v := by
+      unfold contractBefore at hcb
+      split at hcb
+      · cases hcb
+      · cases hf : processFee w.st.bal t.src with
+        | none => rw [hf] at hcb; simp only at hcb; cases hcb
+        | some b1' =>
+          rw [hf] at hcb
+          simp only at hcb
+          split at hcb
+          · cases hcb
+          · cases hg : parseGasLimit t.gasLimit with
+            | none => rw [hg] at hcb; cases hcb
+            | some raw' =>
+              rw [hg, h] at hcb
+              simp only at hcb
+              split at hcb
+              · cases hcb
+              · injection hcb with hcb; injection hcb with _ hcb; injection hcb with _ hcb; exact hcb.symm
+    subst hv'
+    simp only
+    have hfalse : (contractExecute w.code fuel t raw v' { w.st with bal := b1 }).2.1 = false := by
+      unfold contractExecute
+      simp only
+      split
+      · rfl
+      · cases ht : t.target with
+        | none => simp only; rw [(add_guarded_contract w.code fuel t.src 0 v' t.init _ hv).2]
+        | some a => simp only; rw [(add_guarded_contract w.code fuel t.src a v' t.init _ hv).1]
+    rw [hfalse]
+    simp
+
+/-- The amount strings of the quantifier, evaluated by the exact `big.Float` model (C18): zero, empty, `Inf`,
+    more than 18 decimals, negative, huge, exponent forms incl. the binary `p` exponent, 2000-digit exponents. -/
 theorem amount_strings :
+    strToBigInt "1p3" = .val 8000000000000000000 ∧ strToBigInt "1e100" = .val (10 ^ 118) ∧ strToBigInt "1e400" ≠ .val (10 ^ 418) ∧
+    strToBigInt "1e-400" = .val 0 ∧ strToBigInt "1e99999999999" = .err ∧
     strToBigInt "" = .val 0 ∧ strToBigInt "0" = .val 0 ∧ strToBigInt "Inf" = .val 0 ∧ strToBigInt "-inf" = .val 0 ∧
     strToBigInt "0.0000000000000000019" = .val 1 ∧ strToBigInt "-0.0000000000000000001" = .val 0 ∧
     strToBigInt "-5" = .val (-5000000000000000000) ∧ strToBigInt "1e30" = .val (10 ^ 48) ∧
     strToBigInt "abc" = .err ∧ strToBigInt "1e" = .err ∧ strToBigInt "0x10" = .err := by
-  refine ⟨?_, ?_, ?_, ?_, ?_, ?_, ?_, ?_, ?_, ?_, ?_⟩ <;> decide
+  decide +kernel
 
 /-- Every primitive pair (`Sub`;`Add`) guarded by `CanTransfer` is balanced. -/
 theorem transfer_moves_only (b : Bal) (src dst : Addr) (n : Nat) (h : canTransfer b src n = true) :
@@ -109,13 +188,70 @@ theorem chargeGas_conserves (b : Bal) (src : Addr) (gasUsed : Nat) : total (char
 
 /-! ## 3. EVM frames -/
 
-/-- The EVM frame skeleton — any program of CALL / CALLCODE / DELEGATECALL / STATICCALL / CREATE(2) /
-    SELFDESTRUCT / AUTHCALL / REVERT / INVALID / STOP, any nesting, any gas bound, static or not, failed frames
-    reverted — conserves live balances plus the value burned by contracts self-destructing to themselves. -/
-theorem frames_conserve (code : Code) (origin : Addr) (fuel : Nat) (self : Addr) (ro : Bool) (sc : Script) (s : St) :
-    total (exec code origin fuel self ro sc s).1.bal + (exec code origin fuel self ro sc s).1.burned
-      = total s.bal + s.burned :=
-  exec_mass code origin fuel self ro sc s
+/-- Everything the native token can be: live balances, value burned by self-destruct-to-self (ghost), stake held by
+    the miner registry, and refunds / rewards waiting in the escrow. -/
+def wealth (s : St) : Nat := total s.bal + s.burned + stakeSum s.reg + escrowTotal s.escrow
+
+/-- **frames_conserve**, full statement: no EVM program changes the wealth. -/
+def FullStatementFramesConserve : Prop :=
+  ∀ (code : Code) (origin : Addr) (fuel : Nat) (self : Addr) (ro : Bool) (sc : Script) (s : St),
+    wealth (exec code origin fuel self ro sc s).1 = wealth s
+
+/-- What holds of model and code: the EVM frame skeleton — any program of CALL / CALLCODE / DELEGATECALL /
+    STATICCALL / CREATE(2) / SELFDESTRUCT / AUTHCALL / STAKE / UNSTAKE / UNSTAKEALL / REVERT / INVALID / STOP, any
+    nesting, any gas bound `fuel`, static or not, failed frames reverted — changes the wealth only by what the ghost
+    counter `excess` records: the wei UNSTAKE escrows for refund beyond the stake it removes. -/
+theorem frames_conserve_partial (code : Code) (origin : Addr) (fuel : Nat) (self : Addr) (ro : Bool) (sc : Script) (s : St) :
+    wealth (exec code origin fuel self ro sc s).1 + s.excess = wealth s + (exec code origin fuel self ro sc s).1.excess := by
+  have h := exec_mass code origin fuel self ro sc s
+  unfold mass at h
+  unfold wealth
+  omega
+
+/-- The full statement is false of the model — and of the code (known finding `mint-unstake-refund-exceeds-stake`,
+    replayed by the searcher scenario and in the correspondence stream): the contract account 5 of a proposer with
+    stake 2500 executes `UNSTAKE(self, 0.5 RPG)`: the stake stays 2500 (whole-token truncation of 0.5 is 0) and
+    0.5 RPG is escrowed for the transaction origin. -/
+theorem frames_conserve_counterexample : ¬ FullStatementFramesConserve := by
+  intro h
+  have := h [(5, [.unstake 500000000000000000])] 1 10 5 false [.unstake 500000000000000000]
+    { bal := [], dead := [], fresh := 0, burned := 0,
+      reg := [{ id := 7, account := 5, stake := 2500, typ := 1, visible := true }] }
+  revert this
+  decide +kernel
+
+/-- UNSTAKE exactly: the registry loses `refund` whole tokens, the escrow gains `max (refund tokens) v`, of which `v`
+    for the origin; `excess` grows by `v - refund tokens` (truncated subtraction). -/
+theorem unstake_exact (code : Code) (origin : Addr) (s : St) (self : Addr) (v : Nat) :
+    stakeSum (opUnStake code origin s self v).reg + escrowTotal (opUnStake code origin s self v).escrow + s.excess
+      = stakeSum s.reg + escrowTotal s.escrow + (opUnStake code origin s self v).excess ∧
+    (opUnStake code origin s self v).bal = s.bal := by
+  have h := mass_opUnStake code origin s self v
+  have hb := bal_opUnStake code origin s self v
+  have hbu := burned_opUnStake code origin s self v
+  unfold mass at h
+  rw [hb, hbu] at h
+  exact ⟨by omega, hb⟩
+
+/-- STAKE moves whole tokens from the contract's balance into the registry, nothing else. -/
+theorem stake_exact (s : St) (self : Addr) (v : Nat) :
+    total (opStake s self v).bal + stakeSum (opStake s self v).reg = total s.bal + stakeSum s.reg := by
+  have h := mass_opStake s self v
+  have hbu := burned_opStake s self v
+  have e1 : (opStake s self v).escrow = s.escrow := by
+    unfold opStake; simp only; repeat' split
+    all_goals rfl
+  have e2 : (opStake s self v).excess = s.excess := by
+    unfold opStake; simp only; repeat' split
+    all_goals rfl
+  unfold mass at h
+  rw [hbu, e1, e2] at h
+  omega
+
+/-- The sum of all balances never grows inside the EVM, whatever the program. -/
+theorem frames_never_mint (code : Code) (origin : Addr) (fuel : Nat) (self : Addr) (ro : Bool) (sc : Script) (s : St) :
+    total (exec code origin fuel self ro sc s).1.bal ≤ total s.bal :=
+  exec_total_le code origin fuel self ro sc s
 
 /-- SELFDESTRUCT: to another account it moves the balance, to itself it burns exactly the balance. -/
 theorem selfdestruct_exact (s : St) (self ben : Addr) :
@@ -123,7 +259,11 @@ theorem selfdestruct_exact (s : St) (self ben : Addr) :
     (suicide s self ben).burned = s.burned + (if ben = self then get s.bal self else 0) ∧
     get (suicide s self ben).bal self = 0 := by
   have hm := mass_suicide s self ben
+  have e1 : (suicide s self ben).reg = s.reg := rfl
+  have e2 : (suicide s self ben).escrow = s.escrow := rfl
+  have e3 : (suicide s self ben).excess = s.excess := rfl
   unfold mass at hm
+  rw [e1, e2, e3] at hm
   refine ⟨?_, rfl, ?_⟩
   · have : (suicide s self ben).burned = s.burned + (if ben = self then get s.bal self else 0) := rfl
     omega
@@ -147,82 +287,134 @@ example : (exec [(7, [.call 8 3, .suicide 7])] 1 10 7 false [.call 8 3, .suicide
 
 /-! ## 4. Whole transactions -/
 
-/-- **tx_conserves**, the full statement of the property's accounting clause: over every transaction the sum
-    of all balances changes only by self-destruct-to-self burns and by stake locked. -/
+/-- **tx_conserves**, the full statement of the property's accounting clause: over every transaction nothing
+    appears and nothing vanishes — balances + burned + registry stake + escrow (+ refunds pending in the executor
+    context) stay the same. -/
 def FullStatementTxConserves : Prop :=
   ∀ (fuel : Nat) (w : World) (tx : Tx),
-    total (execTx fuel w tx).1.st.bal + (execTx fuel w tx).1.st.burned + lockedBy tx (execTx fuel w tx).2
-      = total w.st.bal + w.st.burned
+    wealth (execTx fuel w tx).1.st + escrowTotal (execTx fuel w tx).1.ctx.pending
+      = wealth w.st + escrowTotal w.ctx.pending
 
-/-- What holds of model and code: for every transaction of every modelled type (asset transfer with any target
-    list and amount strings, contract creation / call / jsonrpc with any gas-limit and value strings, any program,
-    any reported gas use, stake lock, OperatorNode), from every state, successful, failed or evicted:
-    `total after + burned + stake locked + node fee = total before`, the node fee being the 10 RPG a successful
-    OperatorNode transaction (type 7) debits and credits to nobody. -/
+/-- What holds of model and code, for every transaction of every modelled type — asset transfer (any target list,
+    any amount strings), contract creation / call / jsonrpc (any gas-limit and value strings, any program incl. the
+    stake opcodes, any value of the oracle inputs `gasUsed` / `nonceOk` / `jsonOk`, any `fuel`), miner apply / add
+    stake / refund, OperatorNode — from every state, successful, failed or evicted: the wealth changes only by the
+    10 RPG a successful OperatorNode debits and credits to nobody (`nodeFeeBy`) and by the UNSTAKE over-refund
+    recorded in `excess`. -/
 theorem tx_conserves_partial (fuel : Nat) (w : World) (tx : Tx) :
-    total (execTx fuel w tx).1.st.bal + (execTx fuel w tx).1.st.burned
-      + lockedBy tx (execTx fuel w tx).2 + nodeFeeBy tx (execTx fuel w tx).2
-      = total w.st.bal + w.st.burned := by
+    wealth (execTx fuel w tx).1.st + escrowTotal (execTx fuel w tx).1.ctx.pending
+        + nodeFeeBy tx (execTx fuel w tx).2 + w.st.excess
+      = wealth w.st + escrowTotal w.ctx.pending + (execTx fuel w tx).1.st.excess := by
   have h := execTx_mass fuel w tx
-  unfold mass outflowBy at h
+  unfold wmass mass at h
+  unfold wealth
   omega
 
-/-- The full statement holds for every transaction that is not an OperatorNode transaction. -/
-theorem tx_conserves_except_node (fuel : Nat) (w : World) (tx : Tx) (h : ∀ src ok, tx ≠ .node src ok) :
-    total (execTx fuel w tx).1.st.bal + (execTx fuel w tx).1.st.burned + lockedBy tx (execTx fuel w tx).2
-      = total w.st.bal + w.st.burned := by
+/-- The two known findings are the only leaks: if the transaction is not a successful OperatorNode and the `excess`
+    counter did not move, the full equation holds. -/
+theorem tx_conserves_except_known (fuel : Nat) (w : World) (tx : Tx)
+    (h1 : nodeFeeBy tx (execTx fuel w tx).2 = 0) (h2 : (execTx fuel w tx).1.st.excess = w.st.excess) :
+    wealth (execTx fuel w tx).1.st + escrowTotal (execTx fuel w tx).1.ctx.pending
+      = wealth w.st + escrowTotal w.ctx.pending := by
   have hm := tx_conserves_partial fuel w tx
-  have hz : nodeFeeBy tx (execTx fuel w tx).2 = 0 := by
-    cases tx with
-    | node src ok => exact absurd rfl (h src ok)
-    | operator _ _ _ => rfl
-    | lock _ _ _ => rfl
-    | contract _ => rfl
   omega
 
-example : ∀ src ok, Tx.operator 1 true [] ≠ .node src ok := by intro src ok h; cases h
+example : nodeFeeBy (.operator 1 true []) .success = 0 := rfl
 
 /-- The full statement is false of the model — and of the code (known finding `burn-operator-node-fee`, replayed:
     corpus/C06/06-operator-node-fee.ops): an account holding 20.001 RPG that owns a miner sends an OperatorNode
     transaction; it succeeds, 10 RPG leave its balance and arrive nowhere. -/
 theorem tx_conserves_counterexample : ¬ FullStatementTxConserves := by
   intro h
-  have := h 0 { st := { bal := [(1, 20001000000000000000)], dead := [], fresh := 0, burned := 0 }, code := [],
-                ctx := { gasUsed := none } } (.node 1 true)
+  have := h 0 { st := { bal := [(1, 20001000000000000000)], dead := [], fresh := 0, burned := 0,
+                        reg := [{ id := 7, account := 1, stake := 2000, typ := 1, visible := true }] },
+                code := [], ctx := { gasUsed := none } } (.node 1 99 true)
   revert this
-  decide
+  decide +kernel
 
-/-- **The sum of all balances never increases** over any transaction, successful or failed. -/
+/-- The oracle inputs of the model — the gas the interpreter reports (`gasUsed`), the outcome of the nonce test
+    (`nonceOk`), whether the JSON decodes (`jsonOk`) — and the gas bound `fuel` are universally quantified in every
+    theorem of this file (they are fields of `t : ContractTx` / an argument). Spelled out: whatever values they take,
+    a contract transaction conserves balances + burned, and never raises the sum. -/
+theorem conserves_for_every_oracle_value (fuel : Nat) (w : World) (t : ContractTx)
+    (gasUsed : Nat) (nonceOk jsonOk : Bool) :
+    let t' := { t with gasUsed := gasUsed, nonceOk := nonceOk, jsonOk := jsonOk }
+    wealth (execTx fuel w (.contract t')).1.st + w.st.excess
+        = wealth w.st + (execTx fuel w (.contract t')).1.st.excess ∧
+    total (execTx fuel w (.contract t')).1.st.bal ≤ total w.st.bal := by
+  intro t'
+  have h1 := execTx_mass_contract fuel w t'
+  unfold mass at h1
+  unfold wealth
+  exact ⟨by omega, execTx_total_le fuel w (.contract t')⟩
+
+/-- **The sum of all balances never increases** over any transaction of any type, successful or failed
+    (full strength; the two known findings do not touch this clause: one destroys value, the other creates it in the
+    escrow, from where it reaches balances only through `after_exact`). -/
 theorem tx_never_mints (fuel : Nat) (w : World) (tx : Tx) :
-    total (execTx fuel w tx).1.st.bal ≤ total w.st.bal := by
-  have h := execTx_mass fuel w tx
-  have hb := execTx_burned fuel w tx
-  unfold mass at h
+    total (execTx fuel w tx).1.st.bal ≤ total w.st.bal :=
+  execTx_total_le fuel w tx
+
+/-- OperatorNode (`nodeTx = nodeTxWith nodeFee`, `nodeFee` = 10 RPG): a successful one lowers the wealth and the
+    sum of balances by exactly the fee (and hands the miner to the new account). -/
+theorem node_fee_exact (fee : Nat) (s s2 : St) (src newAcct : Addr) (mainOk : Bool)
+    (h : nodeTxWith fee s src newAcct mainOk = some s2) :
+    wealth s2 + fee = wealth s ∧ total s2.bal + fee = total s.bal := by
+  have hm := mass_nodeTxWith fee s s2 src newAcct mainOk h
+  unfold nodeTxWith at h
+  split at h
+  · cases h
+  · rename_i hbal
+    cases hby : byAccount s.reg src with
+    | none => simp [hby] at h
+    | some m =>
+      simp only [hby] at h
+      cases hg : regGet s.reg m.id with
+      | none => simp [hg] at h
+      | some m' =>
+        simp only [hg] at h
+        split at h
+        · cases h
+        · simp only [Option.some.injEq] at h
+          subst h
+          have h1 := (subBal_ok_of_le s.bal src fee (by omega)).2.1
+          unfold mass at hm
+          unfold wealth
+          simp only at hm ⊢
+          constructor <;> omega
+
+example : nodeTx = nodeTxWith nodeFee := rfl
+
+theorem node_fee_is_ten : strToBigInt "10" = .val nodeFee := by decide +kernel
+
+/-- A whole block at any height (fresh executor context, stale `gasUsed` carried between its transactions, context
+    refunds and the block reward `rewards` into the escrow, payout of what is due, commit): the wealth grows by
+    exactly the block reward, minus node fees, plus the UNSTAKE over-refund. -/
+theorem block_conserves (fuel : Nat) (w : World) (h : Nat) (txs : List Tx) (rewards : Escrow) :
+    wealth (execBlock fuel w h txs rewards).1.st + nodeFeeSum txs (execBlock fuel w h txs rewards).2 + w.st.excess
+      = wealth w.st + escrowTotal rewards + (execBlock fuel w h txs rewards).1.st.excess := by
+  have hm := execBlock_mass fuel w h txs rewards
+  unfold mass at hm
+  unfold wealth
   omega
 
-/-- OperatorNode: a successful one lowers the sum by exactly 10 RPG, a failed one by nothing. -/
-theorem node_fee_exact (b b' : Bal) (src : Addr) (ok : Bool) (h : nodeTx b src ok = some b') :
-    total b' + nodeFee = total b :=
-  nodeTx_total b b' src ok h
+/-- the escrow as `CheckAndMove` finds it at the end of the block: what was there, plus UNSTAKE refunds of the block,
+    plus the context refunds, plus the block reward -/
+def escrowAtPayout (fuel : Nat) (w : World) (h : Nat) (txs : List Tx) (rewards : Escrow) : Escrow :=
+  let w1 := (execTxs fuel { w with ctx := { gasUsed := none, pending := [] }, st := { w.st with height := h } } txs).1
+  w1.st.escrow ++ (w1.ctx.pending ++ rewards)
 
-theorem node_fee_is_ten : strToBigInt "10" = .val nodeFee := by decide
-
-/-- …and over any block of transactions. -/
-theorem block_never_mints (fuel : Nat) (w : World) (txs : List Tx) :
-    total (execBlock fuel w txs).1.st.bal ≤ total w.st.bal := by
-  have h := execBlock_mass fuel w txs
-  have hb := execTxs_burned fuel txs { w with ctx := { gasUsed := none } }
-  unfold mass at h
-  unfold execBlock at h ⊢
-  simp only at h hb ⊢
+/-- Over a block the sum of all balances grows by at most the escrow entries that fall due at this height
+    (scheduled block rewards and stake refunds). -/
+theorem block_mints_only_due (fuel : Nat) (w : World) (h : Nat) (txs : List Tx) (rewards : Escrow) :
+    total (execBlock fuel w h txs rewards).1.st.bal
+      ≤ total w.st.bal + ((dueAt (escrowAtPayout fuel w h txs rewards) h).map (·.2)).sum := by
+  have h1 := execTxs_total_le fuel txs { w with ctx := { gasUsed := none, pending := [] }, st := { w.st with height := h } }
+  unfold execBlock escrowAtPayout
+  simp only at h1 ⊢
+  generalize execTxs fuel _ txs = r at h1 ⊢
+  have h2 := (afterBlock_exact r.1.st.bal r.1.st.escrow h (r.1.ctx.pending ++ rewards)).1
   omega
-
-/-- Sequences: a whole block (fresh executor context, stale `gasUsed` carried between its transactions,
-    suicided accounts dropped at the end) obeys the same equation with locked stake and node fees summed. -/
-theorem block_conserves (fuel : Nat) (w : World) (txs : List Tx) :
-    total (execBlock fuel w txs).1.st.bal + (execBlock fuel w txs).1.st.burned
-      + lockedSum txs (execBlock fuel w txs).2 = total w.st.bal + w.st.burned :=
-  execBlock_mass fuel w txs
 
 /-- **failed_tx_only_gas**. A contract transaction that does not succeed (failed or evicted, at any stage:
     fee, decoding, pre-check, intrinsic gas, EVM error, revert) leaves every balance other than the sender's and
@@ -230,20 +422,83 @@ theorem block_conserves (fuel : Nat) (w : World) (txs : List Tx) :
 theorem failed_tx_only_gas (fuel : Nat) (w : World) (t : ContractTx)
     (hf : (execTx fuel w (.contract t)).2 ≠ .success) :
     (∀ a, a ≠ t.src → a ≠ feeAccount → get (execTx fuel w (.contract t)).1.st.bal a = get w.st.bal a) ∧
-    total (execTx fuel w (.contract t)).1.st.bal + (execTx fuel w (.contract t)).1.st.burned
-      = total w.st.bal + w.st.burned := by
-  refine ⟨fun a h1 h2 => failed_contract_other fuel w t hf a h1 h2, ?_⟩
-  have := execTx_mass_contract fuel w t
-  exact this
+    total (execTx fuel w (.contract t)).1.st.bal ≤ total w.st.bal :=
+  ⟨fun a h1 h2 => failed_contract_other fuel w t hf a h1 h2, execTx_total_le fuel w (.contract t)⟩
 
 /-! ## 5. The two ways the sum may move besides burning -/
 
-/-- Stake lock: a successful lock lowers the sum by exactly the stake, a failed one by nothing. -/
-theorem lock_exact (b b' : Bal) (src : Addr) (stake : Nat) (ok : Bool) (h : lockStake b src stake ok = some b') :
-    total b' + stake = total b :=
-  lockStake_total b b' src stake ok h
+/-- Miner apply: a successful one moves exactly `stake` whole tokens from the payer's balance into the registry. -/
+theorem apply_exact (s s2 : St) (src : Addr) (id typ stake : Nat) (account : Addr) (keysOk : Bool)
+    (h : minerApply s src id typ stake account keysOk = some s2) :
+    wealth s2 = wealth s ∧ total s2.bal + toWei stake = total s.bal := by
+  have hm := mass_minerApply s s2 src id typ stake account keysOk h
+  have hb := burned_minerApply s s2 src id typ stake account keysOk h
+  unfold minerApply at h
+  repeat' split at h
+  all_goals first
+    | (simp only [Option.some.injEq] at h
+       subst h
+       rename_i _ _ _ hbal _ _
+       have h1 := (subBal_ok_of_le s.bal src (toWei stake) (by omega)).2.1
+       unfold mass at hm
+       unfold wealth
+       simp only at hm hb ⊢
+       constructor <;> omega)
+    | cases h
 
-example : lockStake [(1, 10)] 1 4 true = some [(1, 6)] ∧ lockStake [(1, 3)] 1 4 true = none := by decide
+example : (minerApply { bal := [(1, 500000000000000000000)], dead := [], fresh := 0, burned := 0 } 1 7 0 400 1 true).isSome = true
+    ∧ (minerApply { bal := [(1, 500000000000000000000)], dead := [], fresh := 0, burned := 0 } 1 7 0 399 1 true).isSome = false := by
+  decide +kernel
+
+/-- Miner add-stake and miner refund keep the wealth: the first moves balance into the registry, the second moves
+    registry stake into the (pending) escrow — by exactly the whole tokens named. -/
+theorem add_and_refund_exact (code : Code) (s s2 : St) (src : Addr) (id : Nat) :
+    (∀ delta, minerAdd s src id delta = some s2 → wealth s2 = wealth s) ∧
+    (∀ amount signed pend, minerRefund code s src id amount signed = some (s2, pend) →
+        wealth s2 + escrowTotal pend = wealth s ∧ s2.bal = s.bal) := by
+  constructor
+  · intro delta h
+    have hm := mass_minerAdd s s2 src id delta h
+    have hb := burned_minerAdd s s2 src id delta h
+    have he : s2.escrow = s.escrow ∧ s2.excess = s.excess := by
+      unfold minerAdd at h
+      split at h
+      · simp only [Option.some.injEq] at h; subst h; exact ⟨rfl, rfl⟩
+      · split at h
+        · cases h
+        · cases hg : regGet s.reg id with
+          | none => simp [hg] at h
+          | some m => simp only [hg, Option.some.injEq] at h; subst h; exact ⟨rfl, rfl⟩
+    have e1 : escrowTotal s2.escrow = escrowTotal s.escrow := by rw [he.1]
+    have e2 := he.2
+    unfold mass at hm
+    unfold wealth
+    omega
+  · intro amount signed pend h
+    have hm := mass_minerRefund code s s2 src id amount signed pend h
+    have hb := burned_minerRefund code s s2 src id amount signed pend h
+    have hbal := bal_minerRefund code s s2 src id amount signed pend h
+    have he : s2.escrow = s.escrow ∧ s2.excess = s.excess := by
+      unfold minerRefund at h
+      split at h
+      · simp only [Option.some.injEq, Prod.mk.injEq] at h; obtain ⟨h1, _⟩ := h; subst h1; exact ⟨rfl, rfl⟩
+      · cases amount with
+        | none => simp at h
+        | some a =>
+          simp only at h
+          cases hg : getRefundStake s.reg (hasCodeIn code) id src a with
+          | none => simp [hg] at h
+          | some p =>
+            obtain ⟨r', refund, acct⟩ := p
+            simp only [hg, Option.some.injEq, Prod.mk.injEq] at h
+            obtain ⟨h1, _⟩ := h
+            subst h1; exact ⟨rfl, rfl⟩
+    have e1 : escrowTotal s2.escrow = escrowTotal s.escrow := by rw [he.1]
+    have e2 := he.2
+    have e3 : total s2.bal = total s.bal := by rw [hbal]
+    unfold mass at hm
+    unfold wealth
+    exact ⟨by omega, hbal⟩
 
 /-- Stake refund / reward payout (`RefundManager.CheckAndMove`): the sum grows by exactly the escrowed amounts. -/
 theorem refund_exact (b : Bal) (l : List (Addr × Nat)) :
